@@ -36,7 +36,7 @@
 
 static const char *g_var = "?";
 static int g_ep = -1;
-static unsigned long g_calls = 0, g_ecount = 0;
+static unsigned long g_calls = 0, g_ecount = 0, g_burst_seq = 0;
 
 struct snap {
         int used;
@@ -251,8 +251,16 @@ burst_api(IMB_MGR *mgr, const int nocheck, imbh_run **runs, int n)
                 const int get = imb_get_errno(mgr), field = mgr->imb_errno, glob = imb_get_errno(NULL);
 
                 g_calls++;
-                if (done == 0 && get != 0) {
-                        /* whole burst refused; jobs[0] points at the offender */
+                g_burst_seq++;
+                printf("B var=%s ep=%d seq=%lu n=%d ret=%u get=%d field=%d glob=%d ids=", g_var, g_ep, g_burst_seq, n, done, get,
+                       field, glob);
+                for (int i = 0; i < n; i++)
+                        printf("%s%ld", i ? "," : "", act[i]->it->id);
+                printf("\n");
+                if (done == 0 && field != 0) {
+                        /* whole burst refused (every refusal goes through imb_set_errno(state, e), so the manager's
+                         * own field is set; the value of imb_get_errno() alone is not reliable here, see the C14
+                         * triage list); jobs[0] points at the offender */
                         imbh_run *bad = NULL;
                         const int slot = slot_index(mgr, jobs[0]);
                         int k = 0;
